@@ -29,6 +29,7 @@ type c20Case struct {
 	Want   []c20Frame        `json:"expected_frames"` // innermost first: fault site, then call sites
 	MsgHas string            `json:"message_contains,omitempty"`
 	Depth  int               `json:"depth"`
+	CRLF   bool              `json:"crlf_line_endings,omitempty"`
 }
 
 type c20Gen struct {
@@ -327,17 +328,37 @@ func c20Generate(seed int64, idx int) c20Case {
 		frames = append(frames, c20Frame{Func: f.qual, Line: line, File: file})
 	}
 	// entry
-	c.Entry = core.Pick(rng, []string{"call", "call", "eval"})
+	c.Entry = core.Pick(rng, []string{"call", "call", "eval", "pkgvar", "eval-after-method"})
 	first := "c0(3)"
 	if chain[0].rec > 0 {
 		first = fmt.Sprintf("c0(3, %d)", chain[0].rec)
 	}
-	g.emit(mainFile, "func main() {")
-	mainLine := g.emit(mainFile, "\t%s", first)
-	g.emit(mainFile, "}")
-	frames = append([]c20Frame{{Func: "main.main", Line: mainLine, File: mainFile}}, frames...)
+	if c.Entry == "pkgvar" {
+		// the chain starts in the initialiser of a package variable that follows a method declaration: the
+		// outermost entry is package-level code and carries no function name
+		g.emit(mainFile, "func (t *T) Last() int {")
+		g.emit(mainFile, "\treturn t.N")
+		g.emit(mainFile, "}")
+		g.emit(mainFile, "")
+		varLine := g.emit(mainFile, "var start = %s", first)
+		g.emit(mainFile, "")
+		g.emit(mainFile, "func main() {")
+		g.emit(mainFile, "}")
+		frames = append([]c20Frame{{Func: "", Line: varLine, File: mainFile}}, frames...)
+	} else {
+		g.emit(mainFile, "func main() {")
+		mainLine := g.emit(mainFile, "\t%s", first)
+		g.emit(mainFile, "}")
+		frames = append([]c20Frame{{Func: "main.main", Line: mainLine, File: mainFile}}, frames...)
+	}
+	// one time in six the files use \r\n line endings: a line is a line
+	eol := "\n"
+	if rng.Chance(1, 6) {
+		eol = "\r\n"
+		c.CRLF = true
+	}
 	for f, ls := range g.lines {
-		c.Files[f] = strings.Join(ls, "\n") + "\n"
+		c.Files[f] = strings.Join(ls, eol) + eol
 	}
 	// expected, innermost first
 	for i := len(frames) - 1; i >= 0; i-- {
@@ -358,6 +379,11 @@ func c20Run(c c20Case, optimize bool) (string, core.Outcome) {
 		o.Panic = p
 		return "", o
 	}
+	if err != nil && c.Entry == "pkgvar" {
+		// the planted fault fires while the package's variables are initialised
+		o.Err = strings.TrimPrefix(strings.TrimPrefix(err.Error(), "error in load: "), "error in run: ")
+		return o.Err, o
+	}
 	if err != nil {
 		o.Err = "LOAD: " + err.Error()
 		return "", o
@@ -368,6 +394,11 @@ func c20Run(c c20Case, optimize bool) (string, core.Outcome) {
 		if o2 := m.Call("main.main", 0); o.Err != "" && o2.Err != o.Err {
 			o.Err = "SECOND CALL DIFFERS\nfirst:\n" + o.Err + "\nsecond:\n" + o2.Err
 		}
+	} else if c.Entry == "eval-after-method" {
+		// the evaluated text declares a type and a method (no plain function) ahead of the call: the call is
+		// still top-level code
+		o = m.Eval(sys, "type E struct {\n\tN int\n}\n\nfunc (e *E) Get() int {\n\treturn e.N\n}\n\nmain()")
+		o.Err = strings.TrimPrefix(o.Err, "error in run: ")
 	} else {
 		o = m.Eval(sys, "main()")
 		o.Err = strings.TrimPrefix(o.Err, "error in run: ")
@@ -398,13 +429,17 @@ func c20Check(c c20Case, errText string) string {
 	want := c.Want[1:]
 	got := lines[1:]
 	// when entered through Eval, the top-level call site follows main.main's frame
-	if c.Entry == "eval" {
+	if c.Entry == "eval" || c.Entry == "eval-after-method" {
 		if len(got) == 0 {
 			return "the call chain is missing"
 		}
+		evalLine := "1"
+		if c.Entry == "eval-after-method" {
+			evalLine = "9"
+		}
 		last := c20Trace.FindStringSubmatch(got[len(got)-1])
-		if last == nil || last[1] != "" || last[3] != "1" {
-			return fmt.Sprintf("the outermost entry %q should be the top-level call site t.go:1", got[len(got)-1])
+		if last == nil || last[1] != "" || last[3] != evalLine {
+			return fmt.Sprintf("the outermost entry %q should be the top-level call site t.go:%s", got[len(got)-1], evalLine)
 		}
 		got = got[:len(got)-1]
 	}
@@ -443,7 +478,7 @@ func c20Decide(c c20Case) (string, map[string]string) {
 }
 
 func runC20(r *core.Run) {
-	r.SetRule("generated call chains of depth 1-30 (functions, methods, a second package, direct recursion of 1-4 extra frames) with the next call placed as a statement, in a := / return / arithmetic expression / argument of another call / if condition / for body / switch default / field store, and one of 18 run-time faults planted at a known line (inside a loop or branch one time in two) in statement shapes that trigger the peephole fusions; entered through Call and through a top-level Eval; optimizer on and off. non-trivial = the fault produced an error with at least one call-chain entry; distinct by source")
+	r.SetRule("generated call chains of depth 1-30 (functions, methods, a second package, direct recursion of 1-4 extra frames) with the next call placed as a statement, in a := / return / arithmetic expression / argument of another call / if condition / for body / switch default / field store, and one of 18 run-time faults planted at a known line (inside a loop or branch one time in two) in statement shapes that trigger the peephole fusions; entered through Call, through a top-level Eval (also one that declares a type and a method ahead of the call) and from the initialiser of a package variable that follows a method declaration (outermost entry without a function name); one case in six with \\r\\n line endings; optimizer on and off. non-trivial = the fault produced an error with at least one call-chain entry; distinct by source")
 	r.Assume("the generator knows every line: one statement per line, a call's arguments may start on the line after the callee (the call is expected on the callee's line); columns are not judged (the property speaks of lines)")
 	n := r.N(3000, 120000)
 	core.Parallel((n+49)/50, func(chunk int) {
